@@ -139,6 +139,34 @@ def go_case(cases, fen, d, ref, mode="exact", moves=(), sm=(), warm=(), flipof=0
     return c
 
 
+def mate_candidates(rng, n):
+    """positions in which a forced mate is likely: defending king at the edge, attacking king close, heavy attacking material, a few
+    further pieces; the attacker to move, either colour.  (Candidates only: the harness' search supplies a certificate, TLC verifies it.)"""
+    out = []
+    sets = ["Q", "R", "QR", "RR", "QB", "QN", "RB", "RN", "BBN", "QQ", "RBN", "BN", "QP", "RP", "RRP"]
+    edge = [q for q in range(64) if q % 8 in (0, 7) or q // 8 in (0, 7)]
+    while len(out) < n:
+        board = {}
+        dk = rng.choice(edge) if rng.random() < 0.85 else rng.randrange(64)
+        board[dk] = "k"
+        near = [q for q in range(64) if 2 <= max(abs(q % 8 - dk % 8), abs(q // 8 - dk // 8)) <= 3]
+        board[rng.choice(near)] = "K"
+        for pc in rng.choice(sets):
+            q = rng.randrange(64)
+            if q in board or (pc == "P" and (q < 8 or q >= 56)):
+                continue
+            board[q] = pc
+        for _ in range(rng.choice([0, 0, 1, 1, 2, 3])):
+            q = rng.randrange(64)
+            pc = rng.choice("pppnbrq")
+            if q in board or (pc == "p" and (q < 8 or q >= 56)):
+                continue
+            board[q] = pc
+        f = board_to_fen(board, "w")
+        out.append(f if rng.random() < 0.5 else flip_fen(f))
+    return out
+
+
 def abtt_model_check(wd, T):
     """ABTT.tla: TLC enumerates every small game (levelled DAG with transpositions, any move order, terminal nodes, fail-hard and fail-soft
     horizon values) and checks that the windowed search with the table returns the minimax value and leaves only true bounds in the table;
@@ -223,11 +251,20 @@ def check_c08(tier, replay=None):
                      ("4k3/8/4K3/8/8/8/8/R7 w - - 0 1", 1)] + ([("r5rk/5p1p/5R2/4B3/8/8/7P/7K w - - 0 1", 5)] if T else []):
             a = go_case(cases, f, d, "plain" if d <= 3 else "ab", w=50 if d >= 3 else 5, why="forced mate corpus")
             go_case(cases, flip_fen(f), d, "plain" if d <= 3 else "ab", flipof=a["id"], w=50 if d >= 3 else 5, why="forced mate corpus, colour-flipped")
+        # forced mates in 1..3 at large: candidates, certificate from the harness' search, TLC verifies the certificate reply by reply;
+        # the engine must then announce a mate no longer than that and play a move that keeps it
+        for i, f in enumerate(mate_candidates(rng, 40000 if T else 1200)):
+            cases.append({"id": len(cases) + 1, "family": "search", "k": "matego", "fen": f, "moves": [], "searchmoves": [], "ref": "ab", "mode": "mate",
+                          "cycle": [], "pre": [], "warm": warm if i % 7 == 0 else [], "flipof": 0, "cap": 60000, "ttcap": 0, "w": 4,
+                          "why": "candidate forced mate (certificate verified by TLC)", "key": [f, [], "mate", [], i % 7 == 0]})
     rule = ("positions: sparse corpus (endings, pins, promotions, e.p., mates in 1-3) plus positions from random legal games, each with its colour-flipped twin, "
             "depths 1-3 with the plain (unpruned) reference; dense middlegames at depth 1 (thorough: 2) with the alpha-beta reference (SelfTest checks both forms agree); "
             "some searches on an engine that has searched other positions before. TLC computes the minimax value over its own legal move generator with capture resolution and "
             "compares score text, best move (must attain the value), PV legality and, for 'mate N', a 2N-1 ply line ending in checkmate. "
-            "distinct_nontrivial = distinct (position, depth, searchmoves, warm) searches with depth >= 2 or a mate score")
+            "Forced mates at large: random positions with mating material; the harness' own search proposes a certificate (attacker move, and for every reply the next one), "
+            "TLC verifies it against its move generator and only then demands `mate k`, k <= N, at depth 2N-1 and a best move after which the mate is still forced. "
+            "Table decisions (hook H6) of every search with a log are held against TTRule. "
+            "distinct_nontrivial = distinct (position, depth, searchmoves, warm) searches with depth >= 2 or a mate score (forced-mate candidates count only when the certificate verified)")
     return run_search_check("C08", tier, cases, wd, t0, rule, "exploration", ASSUME, model=None if replay else abtt_model_check)
 
 
